@@ -18,4 +18,10 @@ for id in "$@"; do
     rm -f "$d/.stderr-$id"
 done
 git -C /repo checkout -- . && git -C /repo clean -fdq -- kiki kiki_e2e_test
-echo "{${res%, }}" > "$d/checks_quick.json"
+python3 - "$d/checks_quick.json" "{${res%, }}" <<'PY'
+import json, sys, os
+path, new = sys.argv[1], json.loads(sys.argv[2])
+old = json.load(open(path)) if os.path.exists(path) else {}
+old.update(new)
+json.dump(old, open(path, "w"), indent=1, sort_keys=True)
+PY
